@@ -274,6 +274,7 @@ func checkHMACVerify(c *Ctx, rule string) {
 	}
 	// tolerance edges
 	var tolLo, tolHi, tolOff []Edge
+	var tolDist []ssa.Value
 	for _, b := range fn.Blocks {
 		for i := range b.Succs {
 			a, ok := edgeAtom(Edge{b, i})
@@ -285,6 +286,9 @@ func checkHMACVerify(c *Ctx, rule string) {
 				a = Atom{a.Y, flipSides(a.Op), a.X}
 			}
 			yMentions := valueMentionsField(a.Y, "Tolerance", 0)
+			if yMentions {
+				tolDist = append(tolDist, a.X)
+			}
 			if u, ok := a.Y.(*ssa.UnOp); ok && u.Op == token.SUB && valueMentionsField(u.X, "Tolerance", 0) {
 				if a.Op == token.GEQ {
 					tolLo = append(tolLo, Edge{b, i})
@@ -320,6 +324,33 @@ func checkHMACVerify(c *Ctx, rule string) {
 		{"nonce-accepted", nonceOK},
 		{"signature-hex-decoded", one(func(ci ssa.CallInstruction) bool { return calleeIs(ci, "encoding/hex", "", "DecodeString") }, ErrNil)},
 		{"constant-time-compare==1", cmpEdges},
+	}
+	// the distance compared with the tolerance is clock.Sub(signed timestamp) itself: time.Time.Sub saturates, whereas
+	// hand-made nanosecond arithmetic wraps for far-away timestamps and rounding widens the window
+	seenDist := map[ssa.Value]bool{}
+	for _, d := range tolDist {
+		dv := stripConv(d)
+		if u, ok := dv.(*ssa.UnOp); ok && u.Op == token.SUB {
+			dv = stripConv(u.X)
+		}
+		if seenDist[dv] {
+			continue
+		}
+		seenDist[dv] = true
+		okSub := false
+		if call, ok := dv.(*ssa.Call); ok {
+			if calleeIs(call, "time", "Time", "Sub") {
+				okSub = true
+			}
+			if calleeIs(call, "time", "Duration", "Abs") {
+				if inner, ok := stripConv(call.Call.Args[0]).(*ssa.Call); ok && calleeIs(inner, "time", "Time", "Sub") {
+					okSub = true
+				}
+			}
+		}
+		c.Check(okSub, rule, fmt.Sprintf("%s:tolerance distance #%d is clock.Sub(timestamp)", name, len(seenDist)), p.Pos(d.Pos()),
+			"the compared distance is the result of time.Time.Sub",
+			"the distance compared with the tolerance is "+shortVal(dv)+", not time.Time.Sub of the clock reading and the signed timestamp: rounding widens the accept window and integer nanosecond arithmetic wraps, so a timestamp outside the tolerance can pass")
 	}
 	nAccept := 0
 	for _, r := range returnsOf(fn) {
